@@ -207,30 +207,36 @@ class InotifyEmitter(EventEmitter):
 
         # Always listen to delete self
         event_mask = InotifyConstants.IN_DELETE_SELF
+        if self.watch.is_recursive:
+            # Needed to keep following created, moved-in and renamed sub-directories.
+            event_mask |= InotifyConstants.IN_CREATE | InotifyConstants.IN_MOVE
 
+        # Native events that can result in an event of each (concrete) class. Both halves of a
+        # move are always requested together, else a rename would look like a deletion or creation.
+        masks: dict[type[FileSystemEvent], int] = {
+            DirMovedEvent: InotifyConstants.IN_MOVE,
+            FileMovedEvent: InotifyConstants.IN_MOVE,
+            DirCreatedEvent: InotifyConstants.IN_MOVE | InotifyConstants.IN_CREATE,
+            FileCreatedEvent: InotifyConstants.IN_MOVE | InotifyConstants.IN_CREATE,
+            DirModifiedEvent: (
+                InotifyConstants.IN_MOVE
+                | InotifyConstants.IN_ATTRIB
+                | InotifyConstants.IN_MODIFY
+                | InotifyConstants.IN_CREATE
+                | InotifyConstants.IN_DELETE
+                | InotifyConstants.IN_CLOSE_WRITE
+            ),
+            FileModifiedEvent: InotifyConstants.IN_ATTRIB | InotifyConstants.IN_MODIFY,
+            DirDeletedEvent: InotifyConstants.IN_MOVE | InotifyConstants.IN_DELETE,
+            FileDeletedEvent: InotifyConstants.IN_MOVE | InotifyConstants.IN_DELETE,
+            FileClosedEvent: InotifyConstants.IN_CLOSE_WRITE,
+            FileClosedNoWriteEvent: InotifyConstants.IN_CLOSE_NOWRITE,
+            FileOpenedEvent: InotifyConstants.IN_OPEN,
+        }
         for cls in self._event_filter:
-            if cls in {DirMovedEvent, FileMovedEvent}:
-                event_mask |= InotifyConstants.IN_MOVE
-            elif cls in {DirCreatedEvent, FileCreatedEvent}:
-                event_mask |= InotifyConstants.IN_MOVE | InotifyConstants.IN_CREATE
-            elif cls is DirModifiedEvent:
-                event_mask |= (
-                    InotifyConstants.IN_MOVE
-                    | InotifyConstants.IN_ATTRIB
-                    | InotifyConstants.IN_MODIFY
-                    | InotifyConstants.IN_CREATE
-                    | InotifyConstants.IN_CLOSE_WRITE
-                )
-            elif cls is FileModifiedEvent:
-                event_mask |= InotifyConstants.IN_ATTRIB | InotifyConstants.IN_MODIFY
-            elif cls in {DirDeletedEvent, FileDeletedEvent}:
-                event_mask |= InotifyConstants.IN_DELETE
-            elif cls is FileClosedEvent:
-                event_mask |= InotifyConstants.IN_CLOSE_WRITE
-            elif cls is FileClosedNoWriteEvent:
-                event_mask |= InotifyConstants.IN_CLOSE_NOWRITE
-            elif cls is FileOpenedEvent:
-                event_mask |= InotifyConstants.IN_OPEN
+            for event_cls, mask in masks.items():
+                if issubclass(event_cls, cls):
+                    event_mask |= mask
 
         return event_mask
 
